@@ -219,7 +219,12 @@ impl Harness for C20 {
             "un" => {
                 let (r, c) = (job.u("r"), job.u("c"));
                 let f = mc::choose(FILLS.len());
-                let la = mc::choose(2);
+                // layouts 2 and 3: backend-native unusual memory (ndarray: cut out of a larger table,
+                // inverted axis); the other backends use the plain construction there
+                let la = mc::choose(4);
+                if la >= 2 {
+                    mc::count("native_unusual_memory_operands");
+                }
                 let ops = ops_for(0, r, c, t);
                 let op = &ops[mc::choose(ops.len())];
                 judge::case(op, &fill(f, r, c, 0, seed), la, None);
@@ -237,7 +242,7 @@ impl Harness for C20 {
             "vec" => {
                 let n = job.u("n");
                 let f = mc::choose(FILLS.len());
-                let src = mc::choose(3);
+                let src = mc::choose(4);
                 let ops = ops_for(2, 1, n, t);
                 let op = &ops[mc::choose(ops.len())];
                 judge::case(op, &fill(f, 1, n, 0, seed), src, None);
